@@ -6,6 +6,7 @@ import Sekai.Gen.Panics
 import SekaiProofs.Lemmas.Gov
 import Sekai.Gen.App
 import Sekai.Model.App
+import Sekai.Model.Upgrade
 /-! # C06 — No reachable state or block can halt the chain  (partial: Go panics are a runtime notion)
 
 What a Lean model can carry: (1) the set of places that can panic inside block processing — explicit `panic`,
@@ -227,6 +228,171 @@ multistaking reward / slash panics, the layer2 EndBlocker panics and the UBI div
 findings (C06/C10/C13/C18/C20 keys); the `"… expected to exist"` panics are guarded by the queue invariant of C08
 (`Inv.activePending`); the remaining sites are reached only through the dynamic search. -/
 theorem panic_sites_as_reviewed : Sekai.Gen.Panics.sites = expectedSites := by decide +kernel
+
+/-! ## the scheduled software-upgrade halt is the only deliberate stop (x/upgrade plan machine, `Sekai.Upgrade`) -/
+section upgrade
+open Sekai.Upgrade
+
+/-- the upgrade BeginBlocker panics exactly when a plan is on record, its time has come, and either (second pass) it is
+not an instate upgrade, or it is one whose handler is neither skipped nor registered - or (first pass) the proposal the
+plan names is not on record -/
+theorem upgrade_halts_iff (s : St) (now : Int) (hh : String → Bool) (po : Bool) :
+    (begin s now hh po).2.isHalt = true ↔
+      ∃ p, s.next = some p ∧ p.time ≤ now ∧
+        ((p.processed = false ∧ po = false) ∨
+         (p.processed = true ∧ (p.instate = false ∨ (p.skipHandler = false ∧ hh p.name = false)))) := by
+  unfold begin
+  cases hn : s.next with
+  | none => simp [Out.isHalt]
+  | some p =>
+    simp only [Option.some.injEq, exists_eq_left']
+    by_cases h1 : now < p.time
+    · simp [h1, Out.isHalt]; omega
+    · have h1' : p.time ≤ now := by omega
+      cases hp : p.processed <;> cases po <;> cases hi : p.instate <;> cases hs : p.skipHandler <;>
+        cases hq : hh p.name <;> simp [h1, h1', Out.isHalt]
+
+/-- a halt changes nothing (the process dies before the block is committed): delivering the same block again to the same
+binary halts again - the stop is stable until the operators act -/
+theorem upgrade_halt_is_stable (s : St) (now : Int) (hh : String → Bool) (po : Bool)
+    (h : (begin s now hh po).2.isHalt = true) :
+    (begin s now hh po).1 = s ∧ (begin (begin s now hh po).1 now hh po).2 = (begin s now hh po).2 := by
+  have hs : (begin s now hh po).1 = s := by
+    unfold begin at h ⊢
+    cases hn : s.next with
+    | none => simp
+    | some p =>
+      simp only [hn] at h ⊢
+      by_cases h1 : now < p.time
+      · simp [h1]
+      · rw [if_neg h1] at h ⊢
+        cases hp : p.processed <;> cases po <;> cases hi : p.instate <;> cases hsk : p.skipHandler <;>
+          cases hq : hh p.name <;> simp [hp, hi, hsk, hq, Out.isHalt] at h ⊢
+  exact ⟨hs, by rw [hs]⟩
+
+/-- no plan on record: the BeginBlocker does nothing -/
+theorem upgrade_no_plan_idle (s : St) (now : Int) (hh : String → Bool) (po : Bool) (h : s.next = none) :
+    begin s now hh po = (s, .idle) := by simp [begin, h]
+
+/-- before the upgrade time nothing happens, whatever the plan says -/
+theorem upgrade_not_before_time (s : St) (p : Plan) (now : Int) (hh : String → Bool) (po : Bool)
+    (h : s.next = some p) (ht : now < p.time) : begin s now hh po = (s, .idle) := by simp [begin, h, ht]
+
+/-- a plan whose time is not in the future of the scheduling block is refused; an accepted one is stored unprocessed and
+cannot fire in the block that scheduled it -/
+theorem upgrade_schedule_future_only (s s' : St) (p : Plan) (now : Int) (h : schedule s p now = some s') :
+    now < p.time ∧ s'.next = some { p with processed := false } ∧ s'.current = s.current ∧
+    ∀ hh po, begin s' now hh po = (s', .idle) := by
+  unfold schedule at h
+  by_cases ht : p.time ≤ now
+  · simp [ht] at h
+  · simp only [ht, if_false, Option.some.injEq] at h
+    subst h
+    refine ⟨by omega, rfl, rfl, ?_⟩
+    intro hh po
+    simp [begin]; omega
+
+theorem upgrade_schedule_refuses_past (s : St) (p : Plan) (now : Int) (h : p.time ≤ now) : schedule s p now = none := by
+  simp [schedule, h]
+
+/-- a cancelled plan never fires -/
+theorem upgrade_cancel_prevents_halt (s : St) (now : Int) (hh : String → Bool) (po : Bool) :
+    begin (cancel s) now hh po = (cancel s, .idle) := by simp [begin, cancel]
+
+/-- the first due block never halts (when the plan's proposal is on record): it pauses the validators that did not
+approve and marks the plan; the halt, if any, is the block after -/
+theorem upgrade_first_pass_pauses (s : St) (p : Plan) (now : Int) (hh : String → Bool)
+    (h : s.next = some p) (ht : p.time ≤ now) (hp : p.processed = false) :
+    begin s now hh true = ({ s with next := some { p with processed := true } }, .paused) := by
+  have : ¬ now < p.time := by omega
+  simp [begin, h, this, hp]
+
+/-- an instate upgrade that skips its handler, or whose handler the binary registered, never halts: the plan becomes the
+current plan and the next-plan slot is cleared -/
+theorem upgrade_instate_goes_through (s : St) (p : Plan) (now : Int) (hh : String → Bool) (po : Bool)
+    (h : s.next = some p) (ht : p.time ≤ now) (hp : p.processed = true) (hi : p.instate = true)
+    (hok : p.skipHandler = true ∨ hh p.name = true) :
+    (begin s now hh po).1 = { next := none, current := some p } ∧ (begin s now hh po).2.isHalt = false := by
+  have : ¬ now < p.time := by omega
+  rcases hok with hk | hk
+  · simp [begin, h, this, hp, hi, hk, Out.isHalt]
+  · cases hs : p.skipHandler <;> simp [begin, h, this, hp, hi, hk, hs, Out.isHalt]
+
+/-- where a stored plan comes from: after any history, the plan on record is (up to its processed mark) the argument of
+a schedule operation of that history that was accepted with its time in the future - or the plan the history started
+with. Only a passed software-upgrade proposal issues that operation (`Gen.App.proposalHandlers`, C08). -/
+def FromSchedule (ops : List Op) (p : Plan) : Prop :=
+  ∃ q now, Op.schedule q now ∈ ops ∧ now < q.time ∧ { q with processed := p.processed } = p
+
+/-- one operation: the plan on record afterwards is the accepted argument of this schedule operation, or the plan that
+was on record before (possibly with its processed mark set) -/
+theorem upgrade_step_provenance (s : St) (op : Op) (p : Plan) (h : (apply s op).next = some p) :
+    (∃ q now, op = .schedule q now ∧ now < q.time ∧ { q with processed := p.processed } = p) ∨
+    ∃ p1, s.next = some p1 ∧ { p1 with processed := p.processed } = p := by
+  cases op with
+  | cancel => simp [apply, cancel] at h
+  | schedule q now =>
+    simp only [apply, schedule] at h
+    by_cases ht : q.time ≤ now
+    · simp only [ht, if_true, Option.getD_none] at h
+      exact .inr ⟨p, h, rfl⟩
+    · simp only [ht, if_false, Option.getD_some, Option.some.injEq] at h
+      exact .inl ⟨q, now, rfl, by omega, by rw [← h]⟩
+  | begin now hh po =>
+    simp only [apply, begin] at h
+    cases hn : s.next with
+    | none => simp [hn] at h
+    | some p' =>
+      simp only [hn] at h
+      by_cases h1 : now < p'.time
+      · rw [if_pos h1] at h
+        rw [hn] at h; cases h; exact .inr ⟨p, rfl, rfl⟩
+      · rw [if_neg h1] at h
+        cases hp : p'.processed <;> cases po <;> cases hi : p'.instate <;> cases hk : p'.skipHandler <;>
+          cases hq : hh p'.name <;> simp [hp, hi, hk, hq, hn] at h <;>
+          first
+            | (subst h; exact .inr ⟨_, rfl, rfl⟩)
+            | (rw [← h]; exact .inr ⟨_, rfl, rfl⟩)
+            | (rw [← h]; exact .inr ⟨_, rfl, by simp [hi, hk]⟩)
+
+theorem upgrade_plan_provenance (ops : List Op) (s : St) (p : Plan) (h : (ops.foldl apply s).next = some p) :
+    FromSchedule ops p ∨ ∃ p0, s.next = some p0 ∧ { p0 with processed := p.processed } = p := by
+  induction ops generalizing s with
+  | nil => exact .inr ⟨p, h, rfl⟩
+  | cons op ops ih =>
+    rcases ih (apply s op) h with ⟨q, now, hm, ht, he⟩ | ⟨p0, h0, he⟩
+    · exact .inl ⟨q, now, List.mem_cons_of_mem _ hm, ht, he⟩
+    · rcases upgrade_step_provenance s op p0 h0 with ⟨q, now, ho, ht, hq⟩ | ⟨p1, h1, hq⟩
+      · refine .inl ⟨q, now, by simp [ho], ht, ?_⟩
+        rw [← he, ← hq]
+      · refine .inr ⟨p1, h1, ?_⟩
+        rw [← he, ← hq]
+
+/-- hence: a chain that starts without a plan and whose history holds no accepted schedule operation never halts in the
+upgrade BeginBlocker -/
+theorem upgrade_no_halt_without_schedule (ops : List Op) (now : Int) (hh : String → Bool) (po : Bool)
+    (hno : ∀ q t, Op.schedule q t ∉ ops) : (begin (ops.foldl apply init) now hh po).2.isHalt = false := by
+  cases hn : (ops.foldl apply init).next with
+  | none => simp [begin, hn, Out.isHalt]
+  | some p =>
+    rcases upgrade_plan_provenance ops init p hn with ⟨q, t, hm, _, _⟩ | ⟨p0, h0, _⟩
+    · exact absurd hm (hno q t)
+    · simp [init] at h0
+
+/-- non-vacuity: the full life of a halting plan, and of an instate upgrade whose handler the new binary registers -/
+example :
+    let p : Plan := { name := "v2", time := 100, instate := false, skipHandler := false, processed := false, proposal := 7 }
+    let s1 := (schedule init p 40).getD init
+    (begin s1 99 (fun _ => false) true).2 = .idle ∧
+    (begin s1 100 (fun _ => false) true).2 = .paused ∧
+    (begin (begin s1 100 (fun _ => false) true).1 106 (fun _ => false) true).2 = .haltNeeded := by decide
+
+example :
+    let p : Plan := { name := "v2", time := 100, instate := true, skipHandler := false, processed := false, proposal := 7 }
+    let s2 := (begin ((schedule init p 40).getD init) 100 (fun _ => false) true).1
+    (begin s2 106 (fun _ => false) true).2 = .haltNoHandler ∧ (begin s2 106 (fun n => n == "v2") true).2 = .applied := by decide
+
+end upgrade
 
 /-! ### Application wiring (table `Gen.App`) -/
 
